@@ -13,13 +13,25 @@
 //!                                       for t == 0, any subset of their union) -> counter
 //!   capi <query> <num> <k> <cont>       C API revindex_search with threshold num/2^k -> `id:scorebits,…`
 //!                                       sorted by (score desc, id) + order token
+//!
+//! Built with `--no-default-features` (sourmash with its default feature set: no `branchwater`, hence
+//! no `sourmash::index::revindex` module at all, and the serial cfg variants of LinearIndex and
+//! Collection::from_sigs) only the `lin` operations are answered; `mem`, `disk`, `cntq` and `capi`
+//! answer `NA`.
+#[cfg(feature = "disk")]
 use sourmash::ffi::index::revindex::{revindex_search, SourmashRevIndex};
+#[cfg(feature = "disk")]
 use sourmash::ffi::index::{searchresult_filename, searchresult_free, searchresult_score, searchresult_signature, SourmashSearchResult};
+#[cfg(feature = "disk")]
 use sourmash::ffi::signature::SourmashSignature;
+#[cfg(feature = "disk")]
 use sourmash::ffi::utils::ForeignObject;
 use sourmash::index::linear::LinearIndex;
+#[cfg(feature = "disk")]
 use sourmash::index::revindex::mem_revindex;
+#[cfg(feature = "disk")]
 use sourmash::index::revindex::{RevIndex, RevIndexOps};
+#[cfg(feature = "disk")]
 use sourmash::selection::Selection;
 use sourmash::signature::Signature;
 use verif_harness::index_util::*;
@@ -130,7 +142,9 @@ fn gen(a: &Args) {
 struct St {
     coll: Vec<Vec<u64>>,
     lin: Option<LinearIndex>,
+    #[cfg(feature = "disk")]
     mem: Option<mem_revindex::RevIndex>,
+    #[cfg(feature = "disk")]
     disk: Option<(RevIndex, tempfile::TempDir)>,
 }
 
@@ -161,6 +175,44 @@ fn show_matches(ms: &[(u64, u64)], desc_key: impl Fn(u64) -> f64) -> String {
     format!("{} {}", body, if ordered { "ordered" } else { "unordered" })
 }
 
+/// the serial build (sourmash without `branchwater`) has LinearIndex only
+#[cfg(not(feature = "disk"))]
+fn step(st: &mut St, ws: &[&str]) -> String {
+    match ws[0] {
+        "case" => {
+            st.coll = ws[3].split(';').map(parse_nats).collect();
+            st.lin = Some(LinearIndex::from_collection(mem_collection(sigs_of(&st.coll))));
+            "ok".into()
+        }
+        "cnt" | "search" if ws[1] == "lin" => {
+            let q = make_mh(&parse_nats(ws[2]), None, 1);
+            let counter = st.lin.as_ref().unwrap().counter_for_query(&q);
+            if ws[0] == "cnt" {
+                return show_counter(counter.iter());
+            }
+            let t: usize = ws[3].parse().unwrap();
+            let count_of = |i: u64| -> u64 { counter.get(&(i as u32)).copied().unwrap_or(0) as u64 };
+            // Collection::from_sigs stores dataset i at internal location "i"
+            let ms: Vec<(u64, u64)> = st
+                .lin
+                .as_ref()
+                .unwrap()
+                .search(counter.clone(), false, t)
+                .unwrap()
+                .into_iter()
+                .map(|l| {
+                    let i: u64 = l.parse().unwrap();
+                    (i, count_of(i))
+                })
+                .collect();
+            show_matches(&ms, |n| n as f64)
+        }
+        "cnt" | "search" | "cntq" | "capi" => "NA".into(),
+        _ => "bad-op".into(),
+    }
+}
+
+#[cfg(feature = "disk")]
 fn step(st: &mut St, ws: &[&str]) -> String {
     match ws[0] {
         "case" => {
